@@ -398,7 +398,14 @@ fn run_suite<S: ShortGroupSignatureScheme>(v: &Value, ps: bool) -> Value {
         } else {
             cred.sig.clone()
         };
-        let hidden: Vec<usize> = (0..n).filter(|i| !disc_idx.contains(i)).collect();
+        let mut hidden: Vec<usize> = (0..n).filter(|i| !disc_idx.contains(i)).collect();
+        // the holder keeps a requested claim hidden inside the proof of knowledge (it gets a response like any hidden
+        // claim) and reports it as disclosed with a value that encodes to the scalar zero
+        let false_zero = if id == target && devk == "false_zero_disclosed" { disc_idx.first().copied() } else { None };
+        if let Some(d) = false_zero {
+            hidden.push(d);
+            hidden.sort();
+        }
         let mut secrets = vec![];
         let mut nonces = vec![];
         let (e1, e2, t1, j2);
@@ -457,6 +464,14 @@ fn run_suite<S: ShortGroupSignatureScheme>(v: &Value, ps: bool) -> Value {
         let mut rep: IndexMap<String, ClaimData> = IndexMap::new();
         for &i in &disc_idx {
             rep.insert(format!("l{i}"), rep_claims[i].clone());
+        }
+        if let Some(d) = false_zero {
+            for e in disclosed.iter_mut() {
+                if e.0 == d {
+                    e.1 = Scalar::ZERO;
+                }
+            }
+            rep.insert(format!("l{d}"), ScalarClaim::from(Scalar::ZERO).into());
         }
         // the exploit of a response lookup that would follow the holder's order of the reported claims:
         // the statement the target commitment refers to lists its reported claims in the opposite order
